@@ -23,6 +23,10 @@ EXPLANATION = (
   " (STATE-instance) no filter method other than the constructor writes instance state (one tabled report flag);"
   ' (COVER) the animation remover is applied to the body and to every region and recurses into every child by default; (FIN-range) the configuration decoders, evaluated over -100..200, reject exactly the values outside their documented range, and regions occupy exactly the configured safe area; (LINT-h) numeric configuration values are never tested by truthiness;'
   ' (LINT-k) no instance field declared with a numeric type is tested by truthiness (the number 0 would count as `not set`);'
+  ' (TRAV-rec) every function that walks the tree by calling itself on the children reaches that child loop on every path (the three walkers that prune by design are tabled with the rules that decide their pruning);'
+  ' (LINT-l) no tuple / list / set display of the anchored modules lists the same computed component twice and no dict display repeats a key (a key or fingerprint built that way cannot tell apart what the missing component would have);'
+  ' (STATE-share) no assignment stores a container field of one object (a field the package updates in place) into a field of another object without copying it, so an in-place update of one object never changes another;'
+  " (ITEM-source) an object built once per item of an inner loop is filled only with values that derive from that item or do not vary with the loops, never with a value of the enclosing container standing where the item's own belongs;"
 )
 RULE_TEXT = "per live loop, per (target kind, property), per external compute() call, per get_body() use, per range test"
 UNDECIDED = ["the text visible at every time is preserved", "idempotence", "merged regions are equivalent (timing, writing mode, alignment as values)",
@@ -307,6 +311,7 @@ def run(ctx):
             f"{pf_.qualname}|the animation filter is created per call", ctx.where(pf_.module, pf_.node), "RemoveAnimationFilter() inside process", "LCDDocFilter.process no longer creates its RemoveAnimationFilter per call: its report flag leaks between documents")
   ctx.ok("STATE-instance", f"{len(fcls)} filter classes|no method outside the constructor writes instance state", "src/main/python/ttconv/filters", "scanned")
   common.check_numeric_fields(ctx, ["ttconv.filters.doc.lcd", "ttconv.config"])
+  common.check_walkers(ctx, MODS)
   common.check_history_independence(ctx, common.DOC_FILTERS + ["ttconv.filters.isd_filter"])
 
 
